@@ -276,6 +276,9 @@ func genC19(r *Rng, tier string) *World {
 		}
 		op.Rev = r.P(0.3)
 		op.Collect = Pick(r, []string{"", "", "CollectMap", "SanitizeMapAndCollect"})
+		if r.P(0.3) {
+			op.Opts = append(op.Opts, OptSpec{K: "fmt", Fmt: Pick(r, []string{"stamp", "record"})})
+		}
 		return op
 	}
 	if r.P(0.25) {
@@ -508,7 +511,7 @@ func runC19(x *X) *Violation {
 		o := *op
 		o.Arg = "given"
 		x.given = inputGo
-		key := op.Kind + "|" + op.Input.String()
+		key := op.Kind + "|" + op.Input.String() + "|" + fmt.Sprint(op.Opts)
 		for _, s := range seen {
 			if s.key == key {
 				x.forceVisitsFrom(s.phase, "o"+strconv.Itoa(i)+"/")
@@ -579,6 +582,7 @@ func runC19(x *X) *Violation {
 		if op.Kind != "parse" && op.Kind != "validate" || i >= len(seen) {
 			continue
 		}
+		x.BuildSchemas() // every call on a schema nobody has used before
 		x.forceVisitsFrom(seen[i].phase, "z"+strconv.Itoa(i)+"/")
 		x.SetPhase("z" + strconv.Itoa(i) + "/")
 		x.Dec.Benign["z"+strconv.Itoa(i)+"/"] = true
